@@ -139,8 +139,8 @@ def spaces(tier, seed):
                                 pipes.append({"kind": "pipe", "m": m, "w": w, "s": s, "cbca": cbca, "seq": list(seq),
                                               "form": form, "pair": pair, "seed": seed, "lay": lay,
                                               "dmin": -2 + (k % 2), "dmax": 1 + (k % 2)})
-    # strips (2 or 3 rows, 14 columns) whose requested interval lies on one side of 0 and whose left mask holds a run
-    # of invalid pixels much longer than the short side: a fill that invents a value (0, a stale buffer) instead of
+    # strips (2 or 3 rows, 14 columns) whose requested interval lies on one side of 0 and which hold a run of
+    # rejected pixels much longer than the short side: a fill that invents a value (0, a stale buffer) instead of
     # taking it from a valid pixel leaves the interval
     for seq in seqs:
         if not any(i >= 5 for i in seq):
@@ -376,10 +376,18 @@ def build_pipe_inputs(case):
     strip = case.get("lay") == "strip"
     if strip:
         ny, nx = case["strip_rows"], 14
-    if case["pair"] == "shift":
-        limg, rimg = D.stereo_pair(ny, nx, shift=3 if strip else 1, seed=case["seed"])
-        if strip and case["dmin"] < 0:
+    if strip:
+        # one scene seen with a disparity of 3 columns, with a textureless band of 7 columns: the matches inside the
+        # band are ambiguous, cross-checking rejects them and the filling has to fetch values from beyond the band
+        scene = D.generic_image(ny, nx + 6, 0, case["seed"], 0, M.HI)
+        if case["pair"] == "indep":
+            scene = scene[::-1].copy()
+        scene[:, 7:14] = 50
+        limg, rimg = scene[:, 3:3 + nx].copy(), scene[:, 0:nx].copy()
+        if case["dmin"] < 0:
             limg, rimg = rimg, limg  # the scene's disparity changes sign with the roles
+    elif case["pair"] == "shift":
+        limg, rimg = D.stereo_pair(ny, nx, shift=1, seed=case["seed"])
         limg, rimg = limg % 100, np.abs(rimg) % 100
     else:
         limg = D.generic_image(ny, nx, 0, case["seed"], 0, M.HI)
@@ -390,8 +398,7 @@ def build_pipe_inputs(case):
     # a ring of invalid left pixels around one valid pixel (a filter that lets invalid neighbours vote would move
     # that pixel to the invalid disparity) and one right nodata pixel
     if strip:
-        lmsk[:, 4:11] = 2  # seven invalid columns: more than the short side in every row
-        lmsk[0, 7] = 0
+        pass  # no mask: the long runs of rejected pixels come from the textureless band
     elif case.get("lay", "ring") == "ring":
         r0, c0 = ny // 2, nx // 2 - 1
         lmsk[r0 - 1:r0 + 2, c0 - 1:c0 + 2] = 2
